@@ -319,6 +319,16 @@ theorem hasPending_aset_wokenCancel (r : Nat) (ws : Waiters) (h : aget r ws = so
       simp only [hasPending] at this ⊢
       simp [aset, hq, this]
 
+theorem nInflight_zero_of_not_hasInflight (ws : Waiters) (h : hasInflight ws = false) :
+    nInflight ws = 0 := by
+  induction ws with
+  | nil => rfl
+  | cons p ws ih =>
+    obtain ⟨q, f⟩ := p
+    simp only [hasInflight, List.any_cons, Bool.or_eq_false_iff] at h
+    simp only [nInflight, h.1, Bool.false_eq_true, if_false, Nat.zero_add]
+    exact ih (by simpa [hasInflight] using h.2)
+
 /-- a queue whose every entry is cancelled has neither pending nor in-flight waiters -/
 theorem not_locked_waiters (ws : Waiters) (h : ws.any (fun w => !w.2.isCancelled) = false) :
     hasPending ws = false ∧ nInflight ws = 0 ∧ hasInflight ws = false := by
